@@ -611,6 +611,22 @@ def unop(op, a):
 
 def eq_term(a, b):
     """-> python bool or z3 Bool for a == b; raises Unsupported where unknown."""
+    ta, tb = type(a).__name__, type(b).__name__
+    if ta == 'VSegs' or tb == 'VSegs':
+        from .segs import segs_eq, to_vbytes
+        if (ta == 'VSegs' or isinstance(a, VBytes)) and (tb == 'VSegs' or isinstance(b, VBytes)):
+            r = segs_eq(a, b)
+            if r is not None:
+                return r
+        a = to_vbytes(a) if ta == 'VSegs' else a
+        b = to_vbytes(b) if tb == 'VSegs' else b
+    if ta == 'VChars' or tb == 'VChars':
+        from .chars import chars_eq, to_vstr
+        r = chars_eq(a, b)
+        if r is not None:
+            return r
+        a = to_vstr(a) if ta == 'VChars' else a
+        b = to_vstr(b) if tb == 'VChars' else b
     if isinstance(a, VFloat) or isinstance(b, VFloat):
         if (isinstance(a, VFloat) or is_numeric(a)) and (isinstance(b, VFloat) or is_numeric(b)):
             if a.concrete and b.concrete:
